@@ -511,7 +511,7 @@ struct Engine
                             add(o);
                         }
                 for (OpK kk : fnd)
-                    for (int pk = 0; pk <= (T.has_peek ? 1 : 0); pk++)
+                    for (int pk = 0; pk <= ((T.has_peek || kk == OpK::FindIt) ? 1 : 0); pk++)
                     {
                         Op o;
                         o.k    = kk;
